@@ -121,6 +121,26 @@ fn main() {
     match cmd.as_str() {
         "book-random" => { let l: usize = num(&m, "levels", 3); with_levels!(l, book_random, &m) }
         "book-tree" => { let l: usize = num(&m, "levels", 3); with_levels!(l, book_tree, &m) }
+        "snapshots" => {
+            use bourse_verif_harness::snap::*;
+            let seed: u64 = num(&m, "seed", 1);
+            let count: u64 = num(&m, "count", 50);
+            let len: usize = num(&m, "len", 60);
+            let trunc: u64 = num(&m, "trunc", 10);
+            let dir = m.get("dir").cloned().unwrap_or_else(|| ".".into());
+            std::fs::create_dir_all(&dir).unwrap();
+            let mut st = SnapStats { points: 0, files: 0, offsets: 0, cont_ops: 0, market_points: 0, status_seen: [0; 5], trading_off_points: 0, fails: vec![], samples: vec![] };
+            book_snapshots::<1>(seed, count, len, &dir, trunc / 4, &mut st);
+            book_snapshots::<3>(seed + 1, count, len, &dir, trunc / 2, &mut st);
+            book_snapshots::<10>(seed + 2, count, len, &dir, trunc * 3 / 4, &mut st);
+            book_snapshots::<24>(seed + 3, count / 2, len, &dir, trunc, &mut st);
+            market_snapshots::<1>(seed + 4, count / 4 + 1, len, &dir, &mut st);
+            market_snapshots::<2>(seed + 5, count / 4 + 1, len, &dir, &mut st);
+            market_snapshots::<4>(seed + 6, count / 4 + 1, len, &dir, &mut st);
+            for f in &st.fails { println!("SNAPFAIL {}", f); }
+            println!("SNAPSTATS {{\"points\":{},\"market_points\":{},\"files\":{},\"truncation_offsets\":{},\"continuation_ops\":{},\"status_seen\":{:?},\"trading_off_points\":{},\"samples\":{:?}}}",
+                st.points, st.market_points, st.files, st.offsets, st.cont_ops, st.status_seen, st.trading_off_points, st.samples);
+        }
         "replay" => {
             let f = std::fs::File::open(m.get("file").expect("--file")).unwrap();
             let lines: Vec<String> = std::io::BufReader::new(f).lines().map(|l| l.unwrap()).collect();
